@@ -26,7 +26,7 @@ for m in $muts; do
       undec="$undec $id"
     fi
   done
-  git -C /repo checkout -- .
+  git -C /repo checkout -- . ; git -C /repo clean -fdq
   echo "$m: caught by:${caught:- NONE}${undec:+  (undecided:$undec)}" | tee -a $out.tmp
 done
 mv $out.tmp $out
